@@ -38,6 +38,12 @@ CBMC_FLAGS = [
     "--nan-check", "--no-self-loops-to-assumptions", "--no-pointer-primitive-check",
     "--object-bits", "16", "--sat-solver", "cadical", "--slice-formula",
 ]
+# Not part of kani-driver's flag set: CBMC's field sensitivity treats arrays of up to N elements as
+# scalars instead of handing them to the array theory.  The default (64) is below the size of almost every
+# heap buffer std allocates (a Vec<(PackId,u32)> grows to 4*36 = 144 bytes); with it, a two-element
+# IndexCollector::extend needs > 12 GB of SAT memory, with 1024 it needs 0.2 GB / 4 s (measured).
+# Sound: it only changes the encoding.  Per-harness override:  //@ fsarray: N
+FS_ARRAY_DEFAULT = 64
 # property classes whose failure is a candidate counterexample of the checked code
 CEX_CLASSES = {
     "assertion", "overflow", "array_bounds", "division-by-zero", "pointer_dereference",
@@ -67,6 +73,7 @@ class Spec:
         self.kernel = []
         self.oracle = []
         self.replay = "playback"  # playback | twin:<fn> | none
+        self.fsarray = FS_ARRAY_DEFAULT
         self.file = None
         self.module = None
 
@@ -123,6 +130,8 @@ def parse_harness_files():
                 cur.oracle.append(v)
             elif k == "replay":
                 cur.replay = v
+            elif k == "fsarray":
+                cur.fsarray = int(v)
     return specs
 
 
@@ -283,7 +292,7 @@ def run_harness(pretty, fn, spec, meta, prop):
                 if rc != 0:
                     res["reason"] = f"{c[0]} failed (rc={rc})"
                     return res
-            cb = ["cbmc"] + CBMC_FLAGS
+            cb = ["cbmc"] + CBMC_FLAGS + ["--max-field-sensitivity-array-size", str(spec.fsarray)]
             if res["unwind"] is not None:
                 cb += ["--unwind", str(res["unwind"])]
             if spec.unwindset:
@@ -300,6 +309,7 @@ def run_harness(pretty, fn, spec, meta, prop):
                         lf.write(f"# note: unwindset pattern {rx!r} matched no loop\n")
                 if us:
                     cb += ["--unwindset", ",".join(us)]
+                    res["unwindset_labels"] = ",".join(us)
             cb += [out, "--verbosity", "8"]
             lf.write("$ " + " ".join(cb) + "\n")
             lf.flush()
@@ -309,7 +319,7 @@ def run_harness(pretty, fn, spec, meta, prop):
                 p1 = subprocess.Popen(["/usr/bin/time", "-f", "MAXRSS_KB=%M", "-o", base + ".time"] + cb,
                                       stdout=subprocess.PIPE, stderr=subprocess.STDOUT,
                                       preexec_fn=limit(spec.mem))
-                p2 = subprocess.Popen(["grep", "-a", "-v", "-E", "^(Unwinding loop|aborting path)"],
+                p2 = subprocess.Popen(["grep", "-a", "--line-buffered", "-v", "-E", "^(Unwinding loop|aborting path)"],
                                       stdin=p1.stdout, stdout=co)
                 p1.stdout.close()
                 try:
@@ -505,11 +515,10 @@ def replay(prop, r, keep=False):
     cmd = ["cargo", "kani", "-p", "rustic_core", "--target-dir", target, "-Z", "stubbing",
            "-Z", "unstable-options", "-Z", "concrete-playback", "--concrete-playback=print",
            "--exact", "--harness", pretty, "--harness-timeout", f"{max(spec.timeout, 60) * 3}s"]
-    if spec.unwindset:
-        # reuse the labels found for the main run
-        labels = r.get("unwindset_labels")
-        if labels:
-            cmd += ["--cbmc-args", "--unwindset", labels]
+    cmd += ["--cbmc-args", "--max-field-sensitivity-array-size", str(spec.fsarray)]
+    labels = r.get("unwindset_labels")
+    if spec.unwindset and labels:
+        cmd += ["--unwindset", labels]
     env = dict(os.environ, CARGO_NET_OFFLINE="true", CARGO_TERM_COLOR="never")
     lockf = open(os.path.join(WORK, "codegen.lock"), "w")
     fcntl.flock(lockf, fcntl.LOCK_EX)
